@@ -73,6 +73,11 @@ def gen_doc(r):
     return {"definitions": defs}
 
 
+import re as _re
+UTC_DISPLAY = _re.compile(r"^-?\d{4,}-\d\d-\d\d \d\d:\d\d:\d\d(\.\d+)? UTC$")
+RFC3339_UTC = _re.compile(r"^-?\d{4,}-\d\d-\d\dT\d\d:\d\d:\d\d(\.\d+)?Z$")
+
+
 def over_datetime(res, tname):
     """Does Display of this type bottom out in chrono::DateTime (newtype chain / untagged variant)?"""
     types = {t["id"]: t for t in res.get("types") or []}
@@ -150,7 +155,9 @@ def run(tier, seed, replay=None):
         issues = strconv.check_agreement(out, want_display=True)
         for kind, det in issues:
             cause = None
-            if kind == "display_differs_from_wire" and over_datetime(results[p["case"]], m["type"]):
+            if kind == "display_differs_from_wire" and over_datetime(results[p["case"]], m["type"]) and \
+                    UTC_DISPLAY.match(det.get("display") or "") and RFC3339_UTC.match(det.get("serialized") or ""):
+                # KF-C11-1 exactly: chrono::DateTime<Utc> prints "<date> <time> UTC" where the wire has "<date>T<time>Z"
                 cause = "chrono_datetime_display"
             rep.violation(kind, ",".join(sorted(det.get("ok", det.get("values", {"display": 1})))),
                           dict(det, type=m["type"], s=m["s"]), case=case, doc=docmap[p["case"]], cause=cause)
